@@ -463,6 +463,7 @@ ebpps_sketch<T,A> ebpps_sketch<T,A>::deserialize(std::istream& is, const SerDe& 
   const uint8_t family = read<uint8_t>(is);
   const uint8_t flags = read<uint8_t>(is);
   const uint32_t k = read<uint32_t>(is);
+  if (!is.good()) throw std::runtime_error("error reading from std::istream");
 
   check_k(k);
   check_family_and_serialization_version(family, ser_ver);
@@ -477,6 +478,7 @@ ebpps_sketch<T,A> ebpps_sketch<T,A>::deserialize(std::istream& is, const SerDe& 
   const double cumulative_wt = read<double>(is);
   const double wt_max = read<double>(is);
   const double rho = read<double>(is);
+  if (!is.good()) throw std::runtime_error("error reading from std::istream");
   if (!(cumulative_wt > 0.0) || std::isinf(cumulative_wt) || !(wt_max > 0.0) || std::isinf(wt_max) || !(rho > 0.0) || std::isinf(rho))
     throw std::invalid_argument("Possible corruption: cumulative weight, maximum weight and rho must be positive and finite");
 
